@@ -194,6 +194,11 @@ def source_tie(ctx: Ctx):
         st = dict(edits_applied=a_, noticed=d_)
         if a_ != d_:
             raise RuntimeError(f"the source translator did not notice {blind}")
+        # … and is it touchy? edits that change nothing the code does must leave every script as it is
+        ha, hs, hc = srcgen.harmless(repo)
+        st.update(harmless_edits_applied=ha, harmless_left_unchanged=hs)
+        if ha != hs:
+            raise RuntimeError(f"harmless edits changed the derived scripts: {hc}")
     ctx.coverage["source_tie"] = dict(scripts=rows, translator="harness/srcgen.py", translator_selftest=st,
                                       checker_cmd=f"lake env lean <Gen.x = Expected.x by decide for {names}>")
     return failed
